@@ -20,6 +20,7 @@ from hypothesis import strategies as st
 
 from vlib import pyexprs, tmodel, values
 from vlib.cham import run
+from vlib.fuzz import FuzzStage
 from vlib.harness import Check, Mismatch, Part
 
 LIT_COMMON = (list("abcXY 01") + ["$$", "$$$$", "$", "{", "}", "{}", "}{",
@@ -392,6 +393,7 @@ CHECK = Check(
           "with braces/$/f-string, or a $$ literal, or an off-switch; "
           "distinct by sha1"),
     parts=[Interp()],
+    stages=[FuzzStage("checks.c06", "interp", 20000)],
     assumptions=[
         "expression values come from Python eval of the generator's own "
         "source text",
